@@ -9,8 +9,8 @@ import AxVerif.Lemmas.DbHist
 namespace AxVerif.Db.C03
 open AxVerif.Db
 
-def catT : Catalog := [⟨"t", [⟨"k", .big, false, false⟩, ⟨"v", .int, false, false⟩]⟩]
-def catU : Catalog := [⟨"u", [⟨"k", .big, false, true⟩, ⟨"v", .int, true, false⟩]⟩]
+def catT : Catalog := [{ name := "t", cols := [⟨"k", .big, false, false⟩, ⟨"v", .int, false, false⟩] }]
+def catU : Catalog := [{ name := "u", cols := [⟨"k", .big, false, true⟩, ⟨"v", .int, true, false⟩] }]
 
 def pre : List Op := [.tick, .tick, .auto (.ins "t" [[.int 1, .int 10]])]
 def preU : List Op := [.tick, .tick, .auto (.ins "u" [[.int 1, .int 10]])]
@@ -129,6 +129,12 @@ theorem failed_statement_atomic (σ : State) (s : String) (st : Stmt) (e : Err)
       rw [h] at herr
       simp [SOut.isErr] at herr
 
+theorem outOfCommit_stmt_err {r : Option Err} {o : SOut} {e : Err} (h : outOfCommit r (.stmt o) = .stmt (.err e)) :
+    o = .err e := by
+  cases r with
+  | none => simpa [outOfCommit] using h
+  | some e' => simp [outOfCommit] at h
+
 /-- the same for the abstract machine, including autocommit statements and batches: a failing one is a `nop` -/
 theorem spec_failed_auto_is_nop (α : Spec.State) (st : Stmt) (e : Err)
     (h : (Spec.step α (.auto st)).2 = .stmt (.err e)) : (Spec.step α (.auto st)).1 = (Spec.step α .nop).1 := by
@@ -138,27 +144,35 @@ theorem spec_failed_auto_is_nop (α : Spec.State) (st : Stmt) (e : Err)
   · rename_i herr; simp only [herr, if_true]
   · rename_i herr
     exfalso
-    simp only at h
-    split at h
-    · simp only [Out.stmt.injEq] at h
-      rw [h] at herr
-      simp [SOut.isErr] at herr
-    · cases h
+    have := outOfCommit_stmt_err h
+    rw [this] at herr
+    simp [SOut.isErr] at herr
+
+/-- a commit refused by the abstract machine (conflict, or constraint re-check) changes nothing -/
+theorem spec_refused_commit_keeps_state (α : Spec.State) (a : Spec.ATxn) (e : Err)
+    (h : (α.commitC a).2 = some e) : (α.commitC a).1 = α := by
+  unfold Spec.State.commitC at h ⊢
+  split
+  · rename_i h1
+    simp only [h1, if_true] at h
+    split
+    · rfl
+    · rename_i h2; simp [h2] at h
+  · rfl
 
 theorem spec_failed_batch_is_nop (α : Spec.State) (sts : List Stmt) (e : Err)
-    (h : (Spec.step α (.batch sts)).2 = .batchErr e) (hne : e ≠ .conflict) :
+    (h : (Spec.step α (.batch sts)).2 = .batchErr e) :
     (Spec.step α (.batch sts)).1 = (Spec.step α .nop).1 := by
   unfold Spec.step at h ⊢
   simp only [Spec.stepCore] at h ⊢
   split at h
-  · rename_i heq; rfl
-  · rename_i heq
-    exfalso
+  · rename_i heq; simp only
+  · rename_i a' outs heq
+    simp only
     simp only at h
-    split at h
-    · cases h
-    · simp only [Out.batchErr.injEq] at h
-      exact hne h.symm
+    cases hr : (α.commitC a').2 with
+    | none => rw [hr] at h; cases h
+    | some e' => rw [spec_refused_commit_keeps_state α a' e' hr]
 
 /-- a failing autocommit statement writes no version and no delete mark: the stored rows are untouched -/
 theorem failed_auto_writes_nothing (σ : State) (st : Stmt) (e : Err)
@@ -175,11 +189,9 @@ theorem failed_auto_writes_nothing (σ : State) (st : Stmt) (e : Err)
   · rename_i herr
     simp only at h
     exfalso
-    split at h
-    · simp only [Out.stmt.injEq] at h
-      rw [h] at herr
-      simp [SOut.isErr] at herr
-    · cases h
+    have := outOfCommit_stmt_err h
+    rw [this] at herr
+    simp [SOut.isErr] at herr
 
 /-- **Dropping a session is a rollback.**  (Both are `abort` of the session's transaction; for every defect setting.) -/
 theorem session_drop_is_abort (D : Defects) (σ : State) (s : String) :
